@@ -15,6 +15,7 @@ import (
 	"strconv"
 	"strings"
 	"sync"
+	"sync/atomic"
 	"time"
 
 	"github.com/caddyserver/caddy/v2"
@@ -64,7 +65,29 @@ func (ProbeTransport) CaddyModule() caddy.ModuleInfo {
 	}
 }
 
+// ProbeBreaker is the handler's circuit breaker: open or closed as the case says.
+type ProbeBreaker struct {
+	Case int `json:"case,omitempty"`
+}
+
+func (ProbeBreaker) CaddyModule() caddy.ModuleInfo {
+	return caddy.ModuleInfo{
+		ID:  "http.reverse_proxy.circuit_breakers.c08probe",
+		New: func() caddy.Module { return new(ProbeBreaker) },
+	}
+}
+
+func (b ProbeBreaker) OK() bool {
+	if v, ok := proxyCases.Load(b.Case); ok {
+		return !v.(*proxyCase).tripped.Load()
+	}
+	return true
+}
+
+func (ProbeBreaker) RecordMetric(int, time.Duration) {}
+
 type proxyCase struct {
+	tripped atomic.Bool
 	entered chan string
 	release []chan struct{}
 	bad     map[string]int    // dial address -> 0 answers, 1 dial error, 2 other error
@@ -111,6 +134,7 @@ func proxyInit() error {
 	proxyOnce.Do(func() {
 		caddy.RegisterModule(ProbeSource{})
 		caddy.RegisterModule(ProbeTransport{})
+		caddy.RegisterModule(ProbeBreaker{})
 		cfg := &caddy.Config{
 			Admin: &caddy.AdminConfig{Disabled: true},
 			Logging: &caddy.Logging{Logs: map[string]*caddy.CustomLog{
@@ -142,6 +166,7 @@ type proxyCaseT struct {
 	fd      bool
 	mf      int
 	retries int
+	cb      bool
 	ups     []pup
 	evs     []pev
 	rnd     randSpec
@@ -190,6 +215,10 @@ func parseProxy(f []string) (proxyCaseT, bool) {
 		}
 	}
 	cf := strings.Split(f[3], ":")
+	if len(cf) == 5 && (cf[4] == "0" || cf[4] == "1") {
+		c.cb = cf[4] == "1"
+		cf = cf[:4]
+	}
 	if len(cf) != 4 {
 		return c, false
 	}
@@ -228,6 +257,8 @@ func parseProxy(f []string) (proxyCaseT, bool) {
 			holds++
 		case e == "q" || e == "Q":
 			c.evs = append(c.evs, pev{kind: 'q', get: e == "q"})
+		case e == "T" || e == "U":
+			c.evs = append(c.evs, pev{kind: e[0]})
 		case strings.HasPrefix(e, "f"):
 			k, ok := num(64, e[1:])
 			if !ok || int(k) >= holds {
@@ -306,6 +337,9 @@ func runProxy(f []string) core.Outcome {
 			ups = append(ups, u)
 		}
 		hj["upstreams"] = ups
+	}
+	if c.cb {
+		hj["circuit_breaker"] = map[string]any{"type": "c08probe", "case": caseID}
 	}
 	if c.passive() {
 		p := map[string]any{}
@@ -450,7 +484,7 @@ func runProxy(f []string) core.Outcome {
 				}
 			}
 			// nothing was ever tried: 503, and only if no upstream could be used
-			if code == 503 && anyFree && !c.fd {
+			if code == 503 && anyFree && !c.fd && !(c.cb && pc.tripped.Load()) {
 				add("proxy-refused-though-available", fmt.Sprintf("%s upstreams, event %d: 503 although an upstream is below its limit (in flight %v)", mode, t, inflight))
 			}
 		}
@@ -577,6 +611,9 @@ func runProxy(f []string) core.Outcome {
 				heldOn = append(heldOn, -1)
 				outs = append(outs, "?")
 			}
+		case 'T', 'U':
+			pc.tripped.Store(e.kind == 'T')
+			outs = append(outs, "ok")
 		case 'f':
 			if heldOn[e.k] < 0 {
 				outs = append(outs, "-")
@@ -591,6 +628,12 @@ func runProxy(f []string) core.Outcome {
 			inflight[heldOn[e.k]]--
 			heldOn[e.k] = -1
 			outs = append(outs, "ok")
+		}
+		// oracle: nothing is proxied while the breaker is open
+		if (e.kind == 'q' || e.kind == 'h') && c.cb && pc.tripped.Load() {
+			if last := outs[len(outs)-1]; !strings.HasSuffix(last, "503") && !strings.HasSuffix(last, "502") && last != "?" {
+				add("proxy-sent-through-open-breaker", fmt.Sprintf("%s upstreams, event %d: the handler's circuit breaker is open, yet the request was proxied (%s)", mode, t, last))
+			}
 		}
 	}
 	consumed := pos
@@ -805,5 +848,20 @@ func genProxy(rng *core.Rand) string {
 	if kind != "-" {
 		pol = leaf.String()
 	}
-	return fmt.Sprintf("prx %s %s %d:%d:%d:%d %s %s %s", mode, pol, m, fd, mf, retries, uf, strings.Join(evs, ","), rs)
+	cfg := fmt.Sprintf("%d:%d:%d:%d", m, fd, mf, retries)
+	if rng.Chance(1, 4) {
+		cfg += ":1"
+		// sprinkle breaker events
+		for i := 1 + rng.Intn(2); i > 0; i-- {
+			at := rng.Intn(len(evs) + 1)
+			ev := "T"
+			if rng.Chance(1, 3) {
+				ev = "U"
+			}
+			evs = append(evs[:at], append([]string{ev}, evs[at:]...)...)
+		}
+	} else if rng.Chance(1, 10) {
+		cfg += ":0"
+	}
+	return fmt.Sprintf("prx %s %s %s %s %s %s", mode, pol, cfg, uf, strings.Join(evs, ","), rs)
 }
